@@ -101,6 +101,61 @@ def worker(a):
     return 8, out, maxpos
 
 
+def int_worker(a):
+    """position-first, all exact: the grain position is given as INTEGERS (plain Python ints or numpy integers - the grain at the
+    origin is written 0, 0, 0), the distance is not an integer; the pixel follows with exact fractions (R and v are rational)."""
+    x, pars = a
+    import numpy as np
+    from xfab import detector
+    cs = x["cs"]
+    out = []
+    R = [[Fr(e, x["rden"]) for e in row] for row in x["R"]]
+    v = [Fr(e, x["vden"]) for e in x["v"]]
+    L, py, pz, y0, z0, pos, how = pars
+    n = [R[0][0], R[1][0], R[2][0]]
+    nv = sum(n[i] * v[i] for i in range(3))
+    t = (n[0] * (L - pos[0]) - n[1] * pos[1] - n[2] * pos[2]) / nv
+    hit = [pos[i] + t * v[i] for i in range(3)]
+    d = [hit[0] - L, hit[1], hit[2]]
+    dety = sum(R[i][1] * d[i] for i in range(3)) / py + y0
+    detz = sum(R[i][2] * d[i] for i in range(3)) / pz + z0
+    f = float
+    want = np.array([f(dety), f(detz)])
+    scale = max(1.0, float(np.abs(want).max()))
+    Rf = np.array([[f(e) for e in row] for row in R])
+    tth, eta = math.atan2(cs["tth"][1], cs["tth"][0]), math.atan2(cs["eta"][1], cs["eta"][0])
+    if how == "int":
+        P3 = [int(q) for q in pos]
+    elif how == "np":
+        P3 = list(np.array([int(q) for q in pos]))          # numpy integer scalars
+    else:
+        P3 = [float(q) for q in pos]
+    tag = "L=%s py=%s pz=%s centre=(%s,%s) tilt=(%.4f,%.4f,%.4f) 2theta=%.4f deg eta=%.4f grain=%s given as %s" % (
+        L, py, pz, y0, z0, math.atan2(cs["tx"][1], cs["tx"][0]), math.atan2(cs["ty"][1], cs["ty"][0]),
+        math.atan2(cs["tz"][1], cs["tz"][0]), math.degrees(tth), eta, [int(q) for q in pos],
+        {"int": "Python ints", "np": "numpy integers", "float": "floats"}[how])
+    try:
+        c2 = np.array(detector.det_coor2(tth, eta, f(L), f(py), f(pz), f(y0), f(z0), Rf, P3[0], P3[1], P3[2]), dtype=float)
+        if np.abs(c2 - want).max() > 1e-9 * scale:
+            out.append("det_coor2 gives pixel %s, the ray from the grain meets the detector at %s (%s)" % (c2.tolist(), want.tolist(), tag))
+        lam = 0.4
+        Gt = np.array([0.0, 2 * math.pi * f(v[1]) / lam, 2 * math.pi * f(v[2]) / lam])
+        c1 = np.array(detector.det_coor(Gt, f(v[0]), lam, f(L), f(py), f(pz), f(y0), f(z0), Rf, P3[0], P3[1], P3[2]), dtype=float)
+        if np.abs(c1 - want).max() > 1e-9 * scale:
+            out.append("det_coor gives pixel %s, expected %s (%s)" % (c1.tolist(), want.tolist(), tag))
+        # integer pixel coordinates into detector_to_lab
+        iy, iz = int(round(f(dety))), int(round(f(detz)))
+        loc = [Fr(0), py * (iy - y0), pz * (iz - z0)]
+        Pex = [f((L if i == 0 else 0) + sum(R[i][k] * loc[k] for k in range(3))) for i in range(3)]
+        arg = (iy, iz) if how != "np" else (np.int64(iy), np.int64(iz))
+        lab = np.array(detector.detector_to_lab(arg[0], arg[1], f(L), f(py), f(pz), f(y0), f(z0), Rf), dtype=float).reshape(-1)
+        if lab.shape != (3,) or np.abs(lab - np.array(Pex)).max() > 1e-9 * max(1.0, f(L)):
+            out.append("detector_to_lab gives %s for the integer pixel (%d, %d), which is at %s in the laboratory (%s)" % (lab.tolist(), iy, iz, Pex, tag))
+    except Exception as ex:
+        out.append("exception %r (%s)" % (ex, tag))
+    return 3, out
+
+
 def pipeline_worker(a):
     """forward-simulation chain on one constructed reflection: g_w --find_omega_general--> (omega, eta) --> G_t = Omega.g_w
     --det_coor--> pixel  ==  det_coor2(2theta, eta) --detector_to_lab--> point on the ray from the grain along v(2theta, eta)"""
@@ -183,6 +238,20 @@ def run(tier, seed):
         for o in out[:2]:
             v.violation(o, {"case": cs, "L": str(pars[0]), "py": str(pars[1]), "pz": str(pars[2]), "y0": str(pars[3]), "z0": str(pars[4]),
                             "pos0": [str(q) for q in pars[5]]})
+    # grain positions given as integers (0, 0, 0 above all), non-integer distance
+    itodo = []
+    for x in rng.sample(r.records, min(len(r.records), 400 if tier == "quick" else 6000)):
+        L = Fr(rng.choice([325, 2741, 20001, rng.randint(21, 1999) * 2 + 1]), rng.choice([2, 20]))
+        py, pz = Fr(rng.choice([1, 5, 50, rng.randint(1, 50)]), 100), Fr(rng.choice([1, 5, 50, rng.randint(1, 50)]), 100)
+        y0, z0 = Fr(rng.randint(-20000, 40000), 16), Fr(rng.randint(-20000, 40000), 16)
+        pos = rng.choice([[0, 0, 0], [0, 0, 0], [rng.randint(-2, 2) for _ in range(3)]])
+        itodo.append((x, (L, py, pz, y0, z0, [Fr(q) for q in pos], rng.choice(["int", "int", "np", "float"]))))
+    for (x, pars), (n, out) in zip(itodo, common.pmap(int_worker, itodo)):
+        ncalls += n
+        v.case(("int", repr(x["cs"]), repr(pars)))
+        for o in out[:2]:
+            v.violation(o, {"case": x["cs"], "L": str(pars[0]), "py": str(pars[1]), "pz": str(pars[2]), "y0": str(pars[3]), "z0": str(pars[4]),
+                            "pos": [int(q) for q in pars[5]], "given_as": pars[6]})
     # the forward-simulation chain: omega solver -> g-vector at that omega -> both pixel functions -> back to the laboratory
     import c09
     pc, _un = c09.make_cases(rng, "quick")
